@@ -1987,6 +1987,12 @@ func forEachInstr(fns []*ssa.Function, f func(ssa.Instruction)) {
 	}
 }
 
+func forEachInstrFn(fns []*ssa.Function, f func(*ssa.Function, ssa.Instruction)) {
+	for _, fn := range fns {
+		allInstrs(fn, func(in ssa.Instruction) { f(fn, in) })
+	}
+}
+
 // callersIndex: static callers of every module function (cached).
 func (p *Program) callersIndex() map[*ssa.Function]map[*ssa.Function]bool {
 	if p.callers != nil {
@@ -2148,21 +2154,42 @@ func symOfExpr(v ssa.Value) string {
 
 func ruleCodeVerbatim(r *Run) {
 	p := r.P
-	fn := r.mustFunc(pkgMd, "(*WordRenderer).extractCodeBlockLines")
+	fn := r.mustFunc(pkgMd, "(*WordRenderer).renderCodeBlock")
 	if fn == nil {
 		return
 	}
+	// the text of every paragraph the code-block renderer (and its private helpers) adds: its data
+	// dependence slice — through the line-extraction helper, if there is one — must not contain a
+	// whitespace-removing call.  A Trim used only to DECIDE (blank line → " ") is not in the slice.
+	sl := newSlicer(p)
+	sl.dataOnly = true
+	n := 0
 	bad := ""
-	allInstrs(fn, func(in ssa.Instruction) {
-		c, ok := in.(ssa.CallInstruction)
+	forEachInstr(helperGroup(p, fn), func(in ssa.Instruction) {
+		c, ok := in.(*ssa.Call)
 		if !ok {
 			return
 		}
-		switch calleeName(c) {
-		case "strings.TrimSpace", "strings.TrimLeft", "strings.Trim", "strings.TrimLeftFunc", "strings.TrimFunc", "strings.Fields", "bytes.TrimSpace", "bytes.TrimLeft", "bytes.Trim", "strings.TrimPrefix":
-			bad = calleeName(c) + " at " + p.pos(c.Pos())
+		cal := staticCallee(c)
+		if cal == nil || cal.Name() != "AddParagraph" || len(c.Call.Args) < 2 {
+			return
+		}
+		if _, isConst := c.Call.Args[1].(*ssa.Const); isConst {
+			return
+		}
+		n++
+		for v := range sl.Slice(c.Call.Args[1]).Vals {
+			tc, ok := v.(*ssa.Call)
+			if !ok {
+				continue
+			}
+			switch calleeName(tc) {
+			case "strings.TrimSpace", "strings.TrimLeft", "strings.Trim", "strings.TrimLeftFunc", "strings.TrimFunc", "strings.Fields", "bytes.TrimSpace", "bytes.TrimLeft", "bytes.Trim", "strings.TrimPrefix":
+				bad = calleeName(tc) + " at " + p.pos(tc.Pos())
+			}
 		}
 	})
+	r.Min("code_line_paragraphs", n, 1)
 	r.Check("code-verbatim", shortName(fn), fn.Pos(), bad == "",
 		fmt.Sprintf("%s %s", shortName(fn), map[bool]string{true: "takes the code lines from the source without removing leading whitespace", false: "passes the code text through " + bad + ": the indentation of the first line (and blank lines at the edges) of a code block is lost"}[bad == ""]))
 }
